@@ -3,6 +3,7 @@ import DW.Stage1
 import DW.Render
 import DW.Props.C03
 import DW.Props.C04
+import DW.Lemmas.Vocab
 
 /-!
 # C14 — expansion is independent of the caller's scope and naming
@@ -22,7 +23,14 @@ What is proved about the model (rustc's name resolution itself is outside it):
   `__other_field_x`, `__other`, `__cmp`, ...) are pairwise distinct, whatever
   the user's field names are (given distinct field names), so a user name equal
   to a temporary's is never captured.
-Known limits (see known_findings.json): bare `isize`/`u8`.. tokens,
+* `C14_vocabulary` (round 7, `Lemmas/Vocab.lean`): the **closed vocabulary** of an expansion — every token of every
+  rendered impl is punctuation, a keyword, a name the impl declares, a token of the item or of the `crate = ..`
+  option, a `__`-prefixed temporary, a number, a string literal, a path segment behind `::`, or one of the seventeen
+  words of `scopeToks`, the only words left to the caller's scope: `bool` and the twelve integer type names
+  (KF-bool, KF-isize), `from` (KF-from) and the method names `zeroize`, `zeroize_or_on_drop`, `cast`.  No `Option`,
+  `Some`, `Ordering`, `Clone`, `matches`, … can occur bare (`C14_vocabulary_rejects`).  Stating it is what exposed
+  KF-bool: `-> bool` is resolved where the macro is invoked, and a local `struct bool;` breaks `PartialEq`.
+Known limits (see known_findings.json): bare `bool`/`isize`/`u8`.. tokens,
 `<*const _>::from`, a type parameter named `__H`.
 -/
 
@@ -540,5 +548,52 @@ theorem C14_binders_fresh (cx : Ctx) (k i j : Nat)
     (cx.field k i).member.display = (cx.field k j).member.display := by
   rcases h with h | h <;>
     (have := congrArg String.toList h; simp [Var.tok] at this; exact String.ext this)
+
+/-! ### The closed vocabulary -/
+
+/-- **Closed vocabulary.** Every token `t` of a rendered impl — the sequence correspondence A compares with the real
+expansion token by token — is free (a fixed word of `fixedToks`, a token of the item, a `__` temporary, a number, a
+string literal) or sits directly behind `::`. `Ctx.PathOK`: a `crate = ..` path has at least one segment (syn). -/
+theorem C14_vocabulary (inp : Input) (im : Impl) (hp : Ctx.PathOK ⟨inp, im.trait⟩)
+    (pre : Toks) (t : String) (post : Toks) (h : im.toks inp = pre ++ t :: post) :
+    (t ∈ punctToks ++ keywordToks ++ declaredToks ++ scopeToks ∨ im.User inp t ∨ (∃ s, t = "__" ++ s) ∨
+      (∃ n : Nat, t = toString n) ∨ ∃ s, t = "\"" ++ s ++ "\"") ∨
+    ∃ pre', pre = pre' ++ [":", ":"] :=
+  Impl.toks_vocab inp im hp pre t post h
+
+/-- The words left to the caller's scope are exactly these seventeen; in particular no name of `core`'s prelude. -/
+theorem C14_scope_words : scopeToks =
+    ["bool", "u8", "u16", "u32", "u64", "u128", "usize", "i8", "i16", "i32", "i64", "i128", "isize",
+     "from", "zeroize", "zeroize_or_on_drop", "cast"] := rfl
+
+theorem not_nat_of_alpha {t : String} {c : Char} (hc : c ∈ t.toList) (hd : c.isDigit = false) :
+    ¬ ∃ n : Nat, t = toString n := by
+  rintro ⟨n, rfl⟩
+  rw [Nat.toString_eq_repr, Nat.toList_repr] at hc
+  have := Nat.isDigit_of_mem_toDigits (by decide) (by decide) hc
+  simp [hd] at this
+
+/-- The statement has teeth: a bare prelude name is not free for any item that does not itself contain it. -/
+theorem C14_vocabulary_rejects (U : String → Prop) (t : String)
+    (ht : t ∈ ["Option", "Some", "None", "Ordering", "Clone", "Default", "PartialEq", "Eq", "matches", "unreachable",
+      "PhantomData", "Sized", "Formatter", "core", "std", "From", "Hash", "Debug"]) (hU : ¬ U t) : ¬ Free U t := by
+  simp only [List.mem_cons, List.not_mem_nil, or_false] at ht
+  rintro (h | h | ⟨s, h⟩ | h | ⟨s, h⟩)
+  · rcases ht with rfl | rfl | rfl | rfl | rfl | rfl | rfl | rfl | rfl | rfl | rfl | rfl | rfl | rfl | rfl | rfl | rfl | rfl <;>
+      revert h <;> decide
+  · exact hU h
+  · have := congrArg String.toList h
+    rcases ht with rfl | rfl | rfl | rfl | rfl | rfl | rfl | rfl | rfl | rfl | rfl | rfl | rfl | rfl | rfl | rfl | rfl | rfl <;>
+      simp at this
+  · rcases ht with rfl | rfl | rfl | rfl | rfl | rfl | rfl | rfl | rfl | rfl | rfl | rfl | rfl | rfl | rfl | rfl | rfl | rfl
+    all_goals first
+      | exact not_nat_of_alpha (c := 'o') (by decide) (by decide) h
+      | exact not_nat_of_alpha (c := 'e') (by decide) (by decide) h
+      | exact not_nat_of_alpha (c := 'a') (by decide) (by decide) h
+      | exact not_nat_of_alpha (c := 's') (by decide) (by decide) h
+      | exact not_nat_of_alpha (c := 'q') (by decide) (by decide) h
+  · have := congrArg String.toList h
+    rcases ht with rfl | rfl | rfl | rfl | rfl | rfl | rfl | rfl | rfl | rfl | rfl | rfl | rfl | rfl | rfl | rfl | rfl | rfl <;>
+      simp [quoteStr] at this
 
 end DW
